@@ -147,11 +147,14 @@ func Matrix(w *srv.World, c srv.Cfg, seedBase uint64, add func(sig, msg string))
 		}{{x, "203.0.113.201"}, {y, "203.0.113.202"}, {x, "203.0.113.201"}, {y, "203.0.113.201"}, {x, "203.0.113.202"}}
 		for si, st := range steps {
 			var r srv.ProbeResult
+			// (the TCP clients of the history send their opening bytes in two pieces: 1, 20, 33, 49, 50 bytes first)
+			w.SplitAt = []int{1, 20, 33, 49, 50}[si%5]
 			if l.Type == "tcp" {
 				r = w.ProbeTCPFrom(l, st.k, seedBase+9000+uint64(si), st.from)
 			} else {
 				r = w.ProbeUDPFrom(l, st.k, seedBase+9000+uint64(si), st.from)
 			}
+			w.SplitAt = 0
 			if !r.Authed || !r.Served {
 				add("configured-key-rejected-after-usage{"+l.Type+"}", fmt.Sprintf("listener %s %s: after clients %v used keys in turn, key %s from %s was not served (step %d, status %s)", l.Type, l.Addr, []string{"P:X", "Q:Y", "P:X", "P:Y", "Q:X"}, st.k.ID, st.from, si, r.Status))
 				break
